@@ -326,7 +326,7 @@ Lemma exchange_ok_inv cl r s c subj styp actor req scopes aud s' i x rt lv sc st
   exchange cl r s c subj styp actor req scopes aud = (s', OExch i x rt lv sc sto) ->
   exists k id ssub,
     exch_auth cl r c = Some k /\ read_x (fst s) false styp subj = Some (id, ssub) /\ x_live (fst s) styp id = true /\
-    string_in "veto" scopes = false /\ sc = decided_scopes (policy (fst s)) scopes /\
+    vetoed (policy (fst s)) scopes = false /\ sc = decided_scopes (policy (fst s)) scopes /\
     match actor with
     | None => True
     | Some (ta, atyp) => exists aid asub, read_x (fst s) true atyp ta = Some (aid, asub) /\
@@ -347,7 +347,8 @@ Proof.
   destruct (x_live g styp id) eqn:LS; cbn [negb]; [|destruct req, r; discriminate].
   destruct ((nonempty asub || match aid with NoId => false | _ => true end) && negb (x_live g atyp' aid)) eqn:LA;
     [destruct req, r; discriminate|].
-  destruct (string_in "veto" scopes) eqn:V; [destruct req, r; discriminate|].
+  destruct (vetoed (policy g) scopes) eqn:V;
+    [destruct (string_in "veto" scopes), (p_late (policy g)), req, r; discriminate|].
   intro H. exists k, id, ssub.
   split; [reflexivity|]. split; [reflexivity|]. split; [exact LS|]. split; [reflexivity|]. split.
   - destruct req; try discriminate;
@@ -507,7 +508,7 @@ Proof. intros [cl pol ops] U. exact (spec_run_model cl (located ops) (init pol) 
 (* Known finding Fxx-C08-1: a revoked JWT access token, declared as id_token, is accepted as
    exchange subject (the faithful model of the code says so). *)
 Definition refuting_clients := [Client "web" "web-secret" AMBasic false false true true; Client "web2" "web2-secret" AMPost true false true true].
-Definition refstore_policy := TEPolicy true None None false false None ActDefault "".
+Definition refstore_policy := TEPolicy true None None false false None ActDefault "" LateNone.
 Definition refuting_history :=
   Hist refuting_clients refstore_policy
     [(0, true, Issue Prov "web2" "bob" ["openid"]);
